@@ -148,6 +148,31 @@ def rename_locals(text: str, suffix: str = "_r") -> str:
     return ast.unparse(tree) + "\n"
 
 
+def flip_comparisons(text: str) -> str:
+    """Behaviour-preserving: `a OP b` -> `b OP' a` for single ==, !=, <, <=, >, >= comparisons whose left operand is
+    not a constant and whose right operand is a constant or a call (yoda style), leaving chained comparisons alone."""
+    tree = ast.parse(text)
+    flip = {ast.Eq: ast.Eq, ast.NotEq: ast.NotEq, ast.Lt: ast.Gt, ast.Gt: ast.Lt, ast.LtE: ast.GtE, ast.GtE: ast.LtE}
+    for n in ast.walk(tree):
+        if isinstance(n, ast.Compare) and len(n.ops) == 1 and type(n.ops[0]) in flip:
+            l, r = n.left, n.comparators[0]
+            if isinstance(r, (ast.Constant, ast.Call)) and not isinstance(l, ast.Constant):
+                n.left, n.comparators, n.ops = r, [l], [flip[type(n.ops[0])]()]
+    return ast.unparse(tree) + "\n"
+
+
+def invert_ifelse(text: str) -> str:
+    """Behaviour-preserving: `if c: A else: B` -> `if not c: B else: A` for plain if/else (no elif chains)."""
+    tree = ast.parse(text)
+    for n in ast.walk(tree):
+        if isinstance(n, ast.If) and n.orelse and not (len(n.orelse) == 1 and isinstance(n.orelse[0], ast.If)):
+            if any(isinstance(x, ast.If) and x is not n and False for x in n.body):
+                continue
+            n.test = ast.UnaryOp(op=ast.Not(), operand=n.test)
+            n.body, n.orelse = n.orelse, n.body
+    return ast.unparse(ast.fix_missing_locations(tree)) + "\n"
+
+
 def _judge(args):
     vid, kind, prop, rules, src_root, edits_spec = args
     from sa.check import run_property
@@ -158,6 +183,10 @@ def _judge(args):
             edits.append((file, lambda t: ast.unparse(ast.parse(t)) + "\n"))
         elif special == "rename":
             edits.append((file, rename_locals))
+        elif special == "flip":
+            edits.append((file, flip_comparisons))
+        elif special == "invert":
+            edits.append((file, invert_ifelse))
         else:
             edits.append((file, (lambda o, n, c: (lambda t: apply_edit(t, o, n, c)))(old, new, count)))
     try:
@@ -250,7 +279,7 @@ def run(prop: str, seed: int, root: str, coverage_out: dict, jobs: int = 16, onl
     rnd.shuffle(vs)
     tasks = []
     for v in vs:
-        special = "unparse" if v.old == "<unparse>" else ("rename" if v.old == "<rename-locals>" else None)
+        special = {"<unparse>": "unparse", "<rename-locals>": "rename", "<flip-comparisons>": "flip", "<invert-ifelse>": "invert"}.get(v.old)
         files = v.file.split(",") if special else [v.file]
         tasks.append((v.vid, v.kind, prop, v.rules, root, [(f, v.old, v.new, v.count, special) for f in files]))
     results = []
